@@ -1043,3 +1043,87 @@ func exprOrNil(n ast.Node) ast.Expr {
 	}
 	return nil
 }
+
+// ---------------------------------------------------------------------------------------
+// G12 per-request service context (C08)
+
+func init() {
+	register("G12", "every dispatch of a request from a connection's receive loop gets its own ServiceContext: the context handed to run/task is built (getServiceContext / NewServiceContext) inside the loop iteration that dispatches, never hoisted out of the loop, because the decoded method and headers are stored in it", 6, ruleG12)
+}
+
+func ruleG12(r *Run) {
+	p := r.P
+	for _, tr := range []string{"rpc/socket", "rpc/udp", "rpc/websocket"} {
+		fd, pkg := p.DeclOf(tr, "Handler.receive")
+		if fd == nil {
+			r.Undec("per-request context "+tr, 0, "Handler.receive not found")
+			continue
+		}
+		info := pkg.TypesInfo
+		parents := parentMap(fd)
+		n := 0
+		ast.Inspect(fd.Body, func(m ast.Node) bool {
+			call, ok := m.(*ast.CallExpr)
+			if !ok {
+				return true
+			}
+			f := Callee(info, call)
+			if f == nil || !p.InRepo(f) {
+				return true
+			}
+			name := p.FuncName(f)
+			if !strings.HasSuffix(name, ".Handler.run") && !strings.HasSuffix(name, ".Handler.task") {
+				return true
+			}
+			n++
+			key := fmt.Sprintf("per-request context %s.Handler.receive -> %s #%d", tr, f.Name(), n)
+			if len(call.Args) == 0 {
+				r.Undec(key, call.Pos(), "dispatch without arguments")
+				return true
+			}
+			// innermost enclosing loop
+			var loop ast.Node
+			for y := parents[call]; y != nil; y = parents[y] {
+				if _, ok := y.(*ast.ForStmt); ok {
+					loop = y
+					break
+				}
+			}
+			builds := func(e ast.Node) bool {
+				found := false
+				ast.Inspect(e, func(k ast.Node) bool {
+					if c, ok := k.(*ast.CallExpr); ok {
+						if g := Callee(info, c); g != nil && (g.Name() == "getServiceContext" || g.Name() == "NewServiceContext") {
+							found = true
+						}
+					}
+					return true
+				})
+				return found
+			}
+			arg := call.Args[0]
+			okCtx := builds(arg)
+			if !okCtx {
+				if o := identObj(info, arg); o != nil && loop != nil && o.Pos() > loop.Pos() && o.Pos() < loop.End() {
+					// a local defined inside the loop: its definition must build the context
+					ast.Inspect(loop, func(k ast.Node) bool {
+						if as, ok := k.(*ast.AssignStmt); ok {
+							for i, l := range as.Lhs {
+								if identObj(info, l) == o && i < len(as.Rhs) && builds(as.Rhs[i]) {
+									okCtx = true
+								}
+							}
+						}
+						return true
+					})
+				}
+			}
+			if okCtx {
+				r.Ok(key, call.Pos(), "context built in the dispatching iteration")
+			} else {
+				r.Viol(key, call.Pos(), "the context handed to the dispatch is not built inside the iteration that dispatches: one mutable ServiceContext (method, headers, items) is shared by all requests of the connection, so a concurrent request's arguments reach the wrong function")
+			}
+			return true
+		})
+	}
+}
